@@ -38,7 +38,9 @@ def R(x):
     return sp.nsimplify(repr(x), rational=True)
 
 
-def sample_data():
+def sample_data(extreme=False):
+    if extreme:
+        return extreme_data()
     vols = []
     val = [0]
 
@@ -56,6 +58,15 @@ def sample_data():
     weights = Tup([nt(f"{QI}:QPointWeight", ["coord", "weight"], [Tup([R(0.125 * (i + 1) + 0.01 * k) for k in range(3)]), R(2.0 + 4 * i)]) for i in range(2)], "list")
     return nt(f"{QI}:QHAInputData", ["nv", "nq", "np", "nm", "na", "weights", "volumes"],
               [sp.Integer(2), sp.Integer(2), sp.Integer(3), sp.Integer(4), sp.Integer(5), weights, Tup(vols, "list")])
+
+
+def extreme_data():
+    """values of either sign with magnitudes up to 1e5 (the property's range), 1 volume x 1 q-point x 3 modes"""
+    qp = nt(f"{QI}:QPointData", ["coord", "modes"], [Tup([R(0.0), R(-0.5), R(0.3333)]), Tup([R(-35.25), R(99999.5), R(0.000125)], "list")])
+    vol = nt(f"{QI}:VolumeData", ["pressure", "volume", "energy", "q_points"], [R(-12000.5), R(98765.4321), R(-15234.123456), Tup([qp], "list")])
+    weights = Tup([nt(f"{QI}:QPointWeight", ["coord", "weight"], [Tup([R(0.0), R(-0.5), R(0.3333)]), R(48.0)])], "list")
+    return nt(f"{QI}:QHAInputData", ["nv", "nq", "np", "nm", "na", "weights", "volumes"],
+              [sp.Integer(1), sp.Integer(1), sp.Integer(3), sp.Integer(1), sp.Integer(1), weights, Tup([vol], "list")])
 
 
 def plain(v):
@@ -156,35 +167,33 @@ def data_dependent_branches(f, allowed_names):
 
 def r_energy(ctx, model):
     patch_lines()
-    files, opened = {}, []
-    intr = io_intrinsics(files, opened)
-    # `for line in fp` must resume where next(fp) stopped: fold the loop through an iterator protocol
-    ev = Ev(model, {}, intr, ctx=ctx)
-    data = sample_data()
     wf = model.func(f"{QI}:write_energy")
-    w = model.where(f"{QI}:write_energy", wf)
-    ev.call_def(wf, model.mods[QI], f"{QI}:write_energy", ["out.dat", data], {})
-    text = files["out.dat"].text if "out.dat" in files else ""
-    ctx.check(bool(text) and opened and opened[0] == ("out.dat", "w"), "write_energy writes one file, truncating", w, expected="open(fname, 'w')", found=str(opened),
-              explanation="the writer does not create its file in truncate mode", key="energy.write")
     rf = model.func(f"{QI}:read_energy")
-    ev2 = Ev(model, {}, io_intrinsics({"out.dat": text}, []), ctx=ctx)
-    try:
-        back = ev2.call_def(rf, model.mods[QI], f"{QI}:read_energy", ["out.dat"], {})
-    except RaisedV as e:
-        ctx.violation("energy.roundtrip", model.where(f"{QI}:read_energy", rf), expected="the written file is readable", found=f"raises {e.exc_name} at {e.where}",
-                      explanation=f"read_energy fails on the file write_energy produces ({e.exc_name})", instance="write -> read")
-        return
-    got, want = plain(back), plain(data)
-    ctx.check(close(got, want), "read_energy(write_energy(data)) == data (counts, P/V/E, q-coordinates, frequencies, weights)", model.where(f"{QI}:read_energy", rf),
-              expected=str(want)[:300], found=str(got)[:300],
-              explanation="a field changes place or value in the write/read round trip of the phonon data file (regex groups, field order of "
-                          "the records, loop counts or the weight block)", key="energy.roundtrip")
+    w = model.where(f"{QI}:write_energy", wf)
+    for label, data in (("regular counts nv=2 nq=2 np=3", sample_data()), ("either sign, magnitudes up to 1e5", sample_data(extreme=True))):
+        files, opened = {}, []
+        ev = Ev(model, {}, io_intrinsics(files, opened), ctx=ctx)
+        ev.call_def(wf, model.mods[QI], f"{QI}:write_energy", ["out.dat", data], {})
+        text = files["out.dat"].text if "out.dat" in files else ""
+        ctx.check(bool(text) and opened and opened[0] == ("out.dat", "w"), f"write_energy writes one file, truncating ({label})", w, expected="open(fname, 'w')", found=str(opened),
+                  explanation="the writer does not create its file in truncate mode", key=f"energy.write.{label[:7]}")
+        ev2 = Ev(model, {}, io_intrinsics({"out.dat": text}, []), ctx=ctx)
+        try:
+            back = ev2.call_def(rf, model.mods[QI], f"{QI}:read_energy", ["out.dat"], {})
+        except RaisedV as e:
+            ctx.violation(f"energy.roundtrip.{label[:7]}", model.where(f"{QI}:read_energy", rf), expected="the written file is readable", found=f"raises {e.exc_name} at {e.where}",
+                          explanation=f"read_energy fails on the file write_energy produces for data with {label} ({e.exc_name})", instance=f"write -> read ({label})")
+            continue
+        got, want = plain(back), plain(data)
+        ctx.check(close(got, want, 5e-5 if "1e5" in label else 5e-7), f"read_energy(write_energy(data)) == data ({label})", model.where(f"{QI}:read_energy", rf),
+                  expected=str(want)[:300], found=str(got)[:300],
+                  explanation="a field changes place or value in the write/read round trip of the phonon data file (regex groups, field order of "
+                              "the records, loop counts, separators or the weight block)", key=f"energy.roundtrip.{label[:7]}")
     for ref in ("write_energy", "read_energy", "_read_volume_data", "_read_weights"):
         f = model.func(f"{QI}:{ref}")
         bad = data_dependent_branches(f, {"line", "res", "nv", "nq", "np", "_", "lines", "fp", "True"})
         ctx.check(not bad, f"{ref}: no branch on parsed values", model.where(f"{QI}:{ref}", f), expected="conditions on line kinds and counts only", found=str(bad),
-                  explanation="the reader/writer branches on data values: agreement on one reference data set does not carry over", key=f"energy.{ref}.branches")
+                  explanation="the reader/writer branches on data values: agreement on reference data sets does not carry over", key=f"energy.{ref}.branches")
 
 
 TABLE_A = """title line kept
